@@ -237,3 +237,58 @@ def unq(zs, i):
 
 def close(a, b, tol=1e-9):
     return abs(float(a) - float(b)) <= tol * max(1.0, abs(float(a)), abs(float(b)))
+
+
+# ---------------------------------------------------------------- certified spot checks (Interval)
+def rlit(fr):
+    fr = Fraction(fr)
+    if fr.denominator == 1:
+        return f"({fr.numerator})"
+    return f"({fr.numerator}/{fr.denominator})"
+
+
+SPOT_PRELUDE = """From Coq Require Import Reals Lra List.
+From Interval Require Import Tactic.
+From VF Require Import Base.Lin Base.Angles.
+Open Scope R_scope.
+Ltac a2 := repeat first [ rewrite atan2_pos by lra | rewrite atan2_neg_nonneg by lra | rewrite atan2_neg_neg by lra
+  | rewrite atan2_zero_pos by lra | rewrite atan2_zero_neg by lra | rewrite atan2_zero_zero by lra ].
+"""
+
+
+def _spot_one(job):
+    idx, name, src, ngoals = job
+    p = f"{CASES}/{name}_{idx}.v"
+    open(p, "w").write(src)
+    rc, out = sh(["coqc", "-noglob", "-Q", COQ, "VF", p], timeout=1800)
+    for ext in (".v", ".vo", ".vok", ".vos"):
+        try:
+            os.remove(p[:-2] + ext)
+        except OSError:
+            pass
+    if rc == 0:
+        return idx, None
+    m = re.search(r'line (\d+)', out)
+    return idx, {"line": int(m.group(1)) if m else -1, "log": out[-1500:]}
+
+
+def coq_spot(name, files):
+    """files: list of (source text, number of goals).  Returns list of (index, failure|None)."""
+    os.makedirs(CASES, exist_ok=True)
+    jobs = [(i, name, src, n) for i, (src, n) in enumerate(files)]
+    with ThreadPoolExecutor(max_workers=16) as ex:
+        return list(ex.map(_spot_one, jobs))
+
+
+def params_lit(P):
+    """Gallina literal of type Params from a harness params object (exact rationals)."""
+    g = [rlit(frac(h)) for h in P["geom"]]
+    off = [rlit(frac(h)) for h in P["off"]]
+    sg = [f"({s})%Z" for s in P["sg"]]
+    return "mkParams " + " ".join(g + off + sg) + f" ({P['dof']})%Z"
+
+
+PROJ = ("rot tr m00 m01 m02 m10 m11 m12 m20 m21 m22 vx vy vz p_a1 p_a2 p_b p_c1 p_c2 p_c3 p_c4 "
+        "p_off1 p_off2 p_off3 p_off4 p_off5 p_off6 p_sg1 p_sg2 p_sg3 p_sg4 p_sg5 p_sg6 p_dof j1 j2 j3 j4 j5 j6 List.nth")
+ISO_FIELDS = ["m00 (rot", "m01 (rot", "m02 (rot", "m10 (rot", "m11 (rot", "m12 (rot", "m20 (rot", "m21 (rot", "m22 (rot",
+              "vx (tr", "vy (tr", "vz (tr"]
